@@ -512,7 +512,13 @@ impl CodeFormatter {
     fn format_block(&mut self, block: &Block) {
         match self.options.braces.position {
             BracePosition::SameLine => self.push(&block.lparen.data).push("\n"),
-            BracePosition::NewLine => self.push("\n").push(&block.lparen.data).push("\n"),
+            BracePosition::NewLine => {
+                // (the brace gets a line of its own, which it may be on already)
+                if !matches!(self.chunks.last(), Some(chunk) if chunk.str == "\n") {
+                    self.push("\n");
+                }
+                self.push(&block.lparen.data).push("\n")
+            }
         };
 
         // Since we want to deal with tokens and the trivia _after_ the token,
@@ -856,7 +862,7 @@ fn join_chunks(chunks: Vec<Chunk>, options: &FormattingOptions) -> String {
             // (a comment inside an operand is part of a chunk of code)
             let inside_comment = piece_idx > 0 && {
                 let before: String = chunk.str.split_inclusive('\n').take(piece_idx).collect();
-                before.matches("/*").count() > before.matches("*/").count()
+                open_block_comments(&before) > 0
             };
             if inside_comment {
                 // The next line of a comment that spans several lines: that is the comment's own text, including the
@@ -951,7 +957,11 @@ fn join_chunks(chunks: Vec<Chunk>, options: &FormattingOptions) -> String {
             if (!ignore && str.contains('\n')) || idx == num_chunks - 1 {
                 let should_add;
 
-                if line.trim().is_empty() {
+                if verbatim_line {
+                    // A line of a comment's own text: it stays what and where it is, also when it is empty
+                    prev_newlines = 0;
+                    should_add = true;
+                } else if line.trim().is_empty() {
                     // We should only add empty lines if:
                     // - The previous line was not a standalone comment
                     // - We did not have more than 1 empty line already
@@ -1018,6 +1028,37 @@ fn join_chunks(chunks: Vec<Chunk>, options: &FormattingOptions) -> String {
     }
 
     result.join("\n")
+}
+
+/// How many block comments are still open at the end of the text? (Scanned the way the parser does: '/*/' opens a
+/// comment and does not close it, comments nest, and a line comment or a string hides what is in it.)
+fn open_block_comments(text: &str) -> usize {
+    let bytes = text.as_bytes();
+    let mut depth = 0;
+    let mut i = 0;
+    while i < bytes.len() {
+        let rest = &bytes[i..];
+        if rest.starts_with(b"/*") {
+            depth += 1;
+            i += 2;
+        } else if depth > 0 && rest.starts_with(b"*/") {
+            depth -= 1;
+            i += 2;
+        } else if depth == 0 && rest.starts_with(b"//") {
+            while i < bytes.len() && bytes[i] != b'\n' {
+                i += 1;
+            }
+        } else if depth == 0 && bytes[i] == b'"' {
+            i += 1;
+            while i < bytes.len() && bytes[i] != b'"' && bytes[i] != b'\n' {
+                i += 1;
+            }
+            i += 1;
+        } else {
+            i += 1;
+        }
+    }
+    depth
 }
 
 #[cfg(test)]
